@@ -70,6 +70,8 @@ func (l *storeWriter) Write(p []byte) (int, error) {
 		}
 	}
 
+	verifYield()
+
 	err = l.storage.Put(ksID, p)
 	if err != nil {
 		return 0, err
